@@ -94,10 +94,33 @@ def c16_input(w, inp):
             path = None; args = ['-c', src]
         elif kind == 'e':
             path = None; args = ['-e', src]
-        rc, out, err = run_cli(args + flags)
+        elif kind == 'm':
+            # -m: a module found by the import system; its loader may have the code but not the text (frozen modules, a
+            # bare .pyc): then there is nothing for --source to show, and everything else is as for any program
+            # (seeded change C16-r8)
+            path = None; args = ['-m', src]
+            if inp.get('sourceless'):
+                import py_compile
+                tmp = tempfile.mkdtemp(prefix='c16_')
+                with open(os.path.join(tmp, src + '.py'), 'w', encoding='utf-8') as f:
+                    f.write(inp['text'])
+                py_compile.compile(os.path.join(tmp, src + '.py'), cfile=os.path.join(tmp, src + '.pyc'), doraise=True)
+                os.remove(os.path.join(tmp, src + '.py'))
+        rc, out, err = run_cli(args + flags, cwd=tmp if kind == 'm' else None)
         w.stats['invocations'] += 1
         w.seen((kind, src, tuple(flags)))
-        code, e = try_(expected_code, kind, src, path)
+        if kind == 'm':
+            def load():
+                import importlib.util, importlib.machinery
+                if inp.get('sourceless'):
+                    ld = importlib.machinery.SourcelessFileLoader(src, os.path.join(tmp, src + '.pyc'))
+                else:
+                    ld = importlib.util.find_spec(src).loader
+                return ld.get_code(src), ld.get_source(src)
+            r, e = try_(load)
+            code, m_text = r if e is None else (None, None)
+        else:
+            code, e = try_(expected_code, kind, src, path)
         if e is not None:
             w.stats['invalid_program'] += 1      # not judged
             return
@@ -106,7 +129,7 @@ def c16_input(w, inp):
         if rc != 0:
             w.violation('C16:valid-program-nonzero-exit', inp, {'exit': rc, 'stderr': err[-300:]})
             return
-        src_text = eval(src, {'linesep': os.linesep}) if kind == 'e' else (src.replace('\\n', '\n') if kind == 'c' else src)
+        src_text = m_text if kind == 'm' else eval(src, {'linesep': os.linesep}) if kind == 'e' else (src.replace('\\n', '\n') if kind == 'c' else src)
         sec = split_sections(out, flags, src_text)
         if sec is None:
             w.violation('C16:output-not-in-expected-shape', inp, {'stdout': out[:400]})
@@ -229,6 +252,9 @@ def run_C16(w):
     for ei, ex in enumerate(EXPRS):
         for fl in (combos if w.tier == 'thorough' else rng.sample(combos, 2)):
             inputs.append({'kind': 'cli', 'source_kind': 'e', 'src': ex, 'flags': fl})
+    for mod, extra in (('__hello__', {}), ('json.scanner', {}), ('c16sourceless', {'sourceless': True, 'text': "def f(a, b=2):\n    return [a, b]\nx = f(1)\n"})):
+        for fl in (combos if w.tier == 'thorough' else [[], ['--source'], ['--json', '--source'], ['--dis', '--dis-after', '--no-normalize']]):
+            inputs.append(dict({'kind': 'cli', 'source_kind': 'm', 'src': mod, 'flags': fl}, **extra))
     # usage: every subset of the four sources, with empty and non-empty values
     for n in range(5):
         for srcs in itertools.combinations(['file', 'c', 'm', 'e'], n):
